@@ -42,6 +42,7 @@ func init() {
 			witnessFamily("C16"),
 			{Name: "regex", N: tierN(150000, 6000000), Run: c16Regex},
 			{Name: "dynpat", N: tierN(20000, 800000), Run: c16DynPattern},
+			{Name: "escapes", N: func(string) int { return 94 }, Run: c16Escapes},
 			{Name: "cacheseq", N: func(string) int { return 5 * 4 }, Run: c16CacheSeq},
 			{Name: "cachebig", N: tierN(24, 240), Run: c16CacheBig},
 			{Name: "cacheconc", N: tierN(2500, 150000), Run: c16CacheConc},
@@ -764,4 +765,50 @@ func c16CacheBig(c *Case) {
 	}
 	c.Nontrivial(fmt.Sprintf("cachebig|%d|%v|%d", capacity, concurrent, c.Index))
 	c.Sample(map[string]interface{}{"family": "cachebig", "capacity": capacity, "distinct_keys": nkeys, "gets": gets, "concurrent": concurrent, "entries_at_end": entries, "resets": resets, "loads": atomic.LoadInt64(&p.loads)})
+}
+
+// c16Escapes: EVERY printable ASCII character behind a back-slash - alone, after a literal, inside a class, after
+// an escaped back-slash, after two of them - as a constant pattern of matches() and replace(). Go's regexp decides
+// what each one means: a pattern it rejects must be rejected by Compile, a pattern it accepts must match and
+// replace exactly as Go does (subjects contain the character, the back-slash, letters, digits, '_', '.', ':').
+// An escape the engine translates on its own (\i, \c of XML Schema, \Q..\E, octal, back references) shows here.
+func c16Escapes(c *Case) {
+	ch := string(rune(33 + c.Index))
+	d := valueDoc(c.GShared("gdoc", 0))
+	ctx := d.Root
+	subjects := []string{ch, "\\" + ch, "a" + ch, "a\\" + ch, "ab", "a_b:c.d-9", " ", "\\", "A" + ch + "Z", "é", "aa\\\\" + ch}
+	for _, pat := range []string{"\\" + ch, "a\\" + ch, "[\\" + ch + "]", "\\\\" + ch, "a\\\\" + ch + "+", "\\\\\\" + ch, "(\\" + ch + ")+", "[^\\" + ch + "]"} {
+		pl, ok := quoteLit(pat)
+		if !ok {
+			continue
+		}
+		_, rerr := regexp.Compile(pat)
+		for _, s := range subjects {
+			sl, ok2 := quoteLit(s)
+			if !ok2 {
+				continue
+			}
+			exprs := []xref.Expr{xref.Call{Name: "matches", Args: []xref.Expr{sl, pl}}, xref.Call{Name: "replace", Args: []xref.Expr{sl, pl, xref.Str{V: "<$1>"}}}}
+			if rerr != nil {
+				for _, e := range exprs {
+					src := xref.Render(e)
+					if ce, err := safeCompile(src); err == nil && ce != nil {
+						c.Violation("INVALID-CONSTANT-PATTERN-ACCEPTED", map[string]interface{}{"expr": src, "regexp_error": rerr.Error()})
+						return
+					}
+					c.Count("regex:invalid-constant-rejected")
+					c.Rep.Evals++
+				}
+				break // one subject is enough for a rejection
+			}
+			for _, e := range exprs {
+				if _, good := c.scalarCheck(e, ctx, "ABORT"); !good {
+					return
+				}
+				c.Count("regex:escape-differential")
+			}
+		}
+	}
+	c.Nontrivial("escape|" + ch)
+	c.Sample(map[string]interface{}{"family": "escapes", "character": ch})
 }
